@@ -208,9 +208,10 @@ class TOpt(Shape):
 class TDict(Shape):
     """dict: presence map + value map (insertion order is not modelled here)."""
 
-    def __init__(self, k, v):
+    def __init__(self, k, v, counter=False):
         self.k = k
         self.v = v
+        self.counter = counter     # collections.Counter: a missing key reads as 0
 
     def key(self):
         return 'dict[%s,%s]' % (self.k.key(), self.v.key())
@@ -303,7 +304,7 @@ _base_cache = {}
 
 
 def base_axioms():
-    key = (len(_lit_cache), len(_list_fns), len(_bag_size), len(_list_contains))
+    key = (len(_lit_cache), len(_list_fns), len(_bag_size), len(_list_contains), len(SpecFun.registry))
     if key not in _base_cache:
         _base_cache.clear()
         _base_cache[key] = _base_axioms()
@@ -380,6 +381,9 @@ def _base_axioms():
     ax.extend(list_axioms())
     ax.extend(bag_axioms())
     ax.extend(contains_axioms())
+    for sf in SpecFun.registry.values():
+        if sf.quantified and sf.defn is not None:
+            ax.append(sf.axiom())
     return ax
 
 
@@ -392,12 +396,21 @@ class SpecFun:
     """
     registry = {}
 
-    def __init__(self, name, arg_sorts, res_sort, defn=None, doc=''):
+    def __init__(self, name, arg_sorts, res_sort, defn=None, doc='', quantified=False):
         self.name = name
+        self.arg_sorts = list(arg_sorts)
         self.f = z3.Function(name, *(list(arg_sorts) + [res_sort]))
         self.defn = defn
         self.doc = doc
+        self.quantified = quantified     # also state the definition as a quantified axiom (for uses under binders)
         SpecFun.registry[name] = self
+
+    def axiom(self):
+        vs = [z3.Const('a%d!%s' % (i, self.name), s) for i, s in enumerate(self.arg_sorts)]
+        app = self.f(*vs)
+        r = self.defn(*vs)
+        body = z3.And(list(r)) if isinstance(r, (list, tuple)) else app == r
+        return z3.ForAll(vs, body, patterns=[app])
 
     def __call__(self, *args):
         return self.f(*args)
